@@ -137,9 +137,22 @@ impl<'a> ExpressionEvaluator<'a> {
                     ));
                 };
 
-                Ok(vec![DataType::Bool(Bool(
-                    (inner[0] >= low[0] && inner[0] <= high[0]) != *negated,
-                ))])
+                // x BETWEEN lo AND hi is (x >= lo) AND (x <= hi) in three-valued logic:
+                // a comparison with NULL is unknown, FALSE AND unknown is FALSE.
+                let cmp = |a: &DataType, b: &DataType, holds: bool| -> Option<bool> {
+                    if matches!(a, DataType::Null) || matches!(b, DataType::Null) {
+                        None
+                    } else {
+                        Some(holds)
+                    }
+                };
+                let ge = cmp(&inner[0], &low[0], inner[0] >= low[0]);
+                let le = cmp(&inner[0], &high[0], inner[0] <= high[0]);
+                Ok(vec![match (ge, le) {
+                    (Some(false), _) | (_, Some(false)) => DataType::Bool(Bool(*negated)),
+                    (Some(true), Some(true)) => DataType::Bool(Bool(!*negated)),
+                    _ => DataType::Null,
+                }])
             }
             BoundExpression::Exists { query, negated } => {
                 todo!("Subquery evaluation is not yet implemented")
